@@ -444,7 +444,11 @@ func (p *vpipe) exec(idx int, op vpOp) bool {
 	// C08: every zero-copy result handed out and not yet released still has its bytes
 	for _, h := range p.held {
 		if !vpEq(h.data, h.want) {
-			p.fail("C08:zero-copy-result-changed-before-release", fmt.Sprintf("result of op %d (%d bytes) changed after op %d %s(%d)", h.op, len(h.want), idx, op.K, op.N))
+			sig := "C08:zero-copy-result-changed-before-release"
+			if p.real {
+				sig = "C06:zero-copy-result-of-a-fallback-delivery-changed-before-release"
+			}
+			p.fail(sig, fmt.Sprintf("result of op %d (%d bytes) changed after op %d %s(%d)", h.op, len(h.want), idx, op.K, op.N))
 			break
 		}
 	}
